@@ -1,6 +1,5 @@
 package main
 
-func runKV(path string)    { panic("not built yet") }
 func runCrash(path string) { panic("not built yet") }
 func runFault(path string) { panic("not built yet") }
 func runCodec(path string) { panic("not built yet") }
